@@ -167,8 +167,8 @@ def run(tier, seed):
 
     # Miri (tree borrows): seeded sample, one process per seed
     miri_runs = 0
-    crate = os.path.join(VERIF, "harness", "gcmon")
-    menv = {"CARGO_TARGET_DIR": os.path.join(VERIF, ".targets", "gcmon-miri"), "MIRIFLAGS": "-Zmiri-tree-borrows", "CARGO_NET_OFFLINE": "true"}
+    crate = build.crate_dir("gcmon")
+    menv = {"CARGO_TARGET_DIR": build.target_dir_for("gcmon", "miri"), "MIRIFLAGS": "-Zmiri-tree-borrows", "CARGO_NET_OFFLINE": "true"}
     nm = 64 if thorough else 16
     mtasks = []
     for s in range(nm):
